@@ -22,13 +22,18 @@ def is_rsa(k):
     return bool(k) and k.startswith("RSA")
 
 
-def ent(alias, issuer, key, sig, ski=True, aki=True, imported=False, key_is_rsa=None):
-    return {"alias": alias, "issuer": issuer or "", "key": key or "", "sig": sig or "", "wantSki": ski and not imported, "wantAki": aki and not imported,
+# a subject key id that is NOT the hash of the key: given explicitly, or as the raw extension value (OCTET STRING deadbeef)
+SKI_OTHER = {"manual": {"subjectKeyIdentifier": {"content": "!binary:3q2+7w=="}}, "raw": {"subjectKeyIdentifier": {"raw": "!binary:BATerb7v"}}}
+
+
+def ent(alias, issuer, key, sig, ski=True, aki=True, imported=False, key_is_rsa=None, ski_other=""):
+    return {"alias": alias, "issuer": issuer or "", "key": key or "", "sig": sig or "", "wantSki": ski and not imported and not ski_other,
+            "wantAki": aki and not imported, "skiOther": ski_other,
             "imported": imported, "keyIsRsa": is_rsa(key) if key_is_rsa is None else key_is_rsa}
 
 
 def conf(e, path_dn):
-    exts = ([SKI] if e["wantSki"] else []) + ([AKI] if e["wantAki"] else [])
+    exts = ([SKI] if e["wantSki"] else []) + ([SKI_OTHER[e["skiOther"]]] if e.get("skiOther") else []) + ([AKI] if e["wantAki"] else [])
     return cfg(path_dn, issuer=e["issuer"] or None, keyAlgorithm=e["key"] or None, signatureAlgorithm=e["sig"] or None, extensions=exts or None)
 
 
@@ -67,6 +72,16 @@ def cases(ctx):
                     continue
                 ents = [ent("ca", None, ik, isig, aki=True), ent("leaf", "ca", sk, s)]
                 out.append(mk(len(out) + 1, ents, {"ca": "ca.yaml", "leaf": "sub/leaf.yml"}, {"ca": "CN=CA %s, O=Chain, C=DE" % ik, "leaf": "CN=Leaf, O=Chain, C=DE"}, "two-level"))
+    # issuers whose subject key id is not the hash of their key (given explicitly / raw / absent): the child's `hash` authority key id is
+    # SHA-1 of the issuer's key bits all the same
+    for ik in ["P-256", "RSA-1024", "P-384", "brainpoolP256r1"]:
+        isig = "RSAwithSHA256" if is_rsa(ik) else "ECDSAwithSHA256"
+        for mode in ("manual", "raw", "absent"):
+            ents = [ent("ca", None, ik, isig, ski=False, ski_other=("" if mode == "absent" else mode)),
+                    ent("mid", "ca", "P-256", isig, ski_other=("" if mode == "absent" else mode), ski=(mode != "absent")),
+                    ent("leaf", "mid", None, "ECDSAwithSHA256")]
+            out.append(mk(len(out) + 1, ents, {"ca": "ca.yaml", "mid": "m/mid.yaml", "leaf": "m/l/leaf.json"},
+                          {"ca": "CN=CA own key id %s, O=Chain" % mode, "mid": "CN=Mid, O=Chain", "leaf": "CN=Leaf, O=Chain"}, "issuer-ski-" + mode))
     # roots with every key x signature (self-signed: must fit the own key)
     for k in keys:
         for s in (sigs if not ctx.quick else [None, "ECDSAwithSHA384", "RSAwithSHA1"]):
@@ -84,7 +99,9 @@ def cases(ctx):
             s = r.choice(RSA_SIGS if signer_rsa else EC_SIGS)
             if r.random() < .25 and is_rsa(k) == signer_rsa:
                 s = None
-            ents.append(ent(alias, parent, k, s, ski=r.random() < .8, aki=r.random() < .8))
+            # some entities carry a subject key id of their own choosing: a child's hashed authority key id is still the hash of the key
+            other = r.choice(["manual", "raw"]) if r.random() < .2 else ""
+            ents.append(ent(alias, parent, k, s, ski=r.random() < .8, aki=r.random() < .8, ski_other=other))
             paths[alias] = "/".join(["d%d" % (j % 3)] * (j % 3) + ["%s.%s" % (alias, ["yaml", "yml", "json"][j % 3])])
             dns[alias] = "CN=Entity %d gen %d, O=Tier %d, C=DE" % (j, i, j)
         out.append(mk(len(out) + 1, ents, paths, dns, "forest", profile=(i % 2 == 1)))
